@@ -5,7 +5,8 @@
 (* A packager pushes bytes through layers (tar -> compressor -> container  *)
 (* -> the caller's sink).  Layers buffer; bytes reach the sink in N writes *)
 (* of a successful run.  A fault makes sink write number k fail (error or  *)
-(* short write), either from k on or at k only.  The INTENDED design       *)
+(* short write, or "latent": every byte accepted and an error reported   *)
+(* all the same), either from k on or at k only.  The INTENDED design   *)
 (* returns an error whenever any sink write reported one, and success      *)
 (* means every produced byte was delivered.                                *)
 (*                                                                         *)
@@ -25,7 +26,7 @@ CONSTANTS N,            \* sink writes of a fault-free run
 VARIABLES pc, i, fault, failed, delivered, firstErr, ret
 vars == <<pc, i, fault, failed, delivered, firstErr, ret>>
 
-Faults == [k : 0..N, variant : {"error", "short"}, mode : {"from", "once"}]   \* k = N: no fault
+Faults == [k : 0..N, variant : {"error", "short", "latent"}, mode : {"from", "once"}]   \* k = N: no fault
 
 Init == /\ pc = "run" /\ i = 0 /\ fault \in Faults /\ failed = FALSE /\ delivered = 0 /\ firstErr = FALSE /\ ret = "none"
 
@@ -40,7 +41,7 @@ SinkWrite ==
                  /\ ~("CloseErrorDropped" \in Deviations /\ inClose)
                  /\ ~("PadErrorIgnored" \in Deviations /\ i \in PadWrites)
      IN /\ failed' = (failed \/ bad)
-        /\ delivered' = IF bad THEN delivered ELSE delivered + 1
+        /\ delivered' = IF bad /\ fault.variant # "latent" THEN delivered ELSE delivered + 1
         /\ firstErr' = (firstErr \/ seen)
         \* a packager stops at the first error it sees
         /\ pc' = IF seen THEN "return" ELSE "run"
